@@ -38,8 +38,9 @@ func (core *JApiCore) compileCore() *jerr.JApiError {
 }
 
 func (core *JApiCore) checkMacroForRecursion() *jerr.JApiError {
-	for macroName, macro := range core.macro {
-		if je := core.findPaste(macroName, macro, map[string]struct{}{}); je != nil {
+	// In the order of definition: the first recursive macro is the one reported.
+	for _, macroName := range core.macroNames {
+		if je := core.findPaste(macroName, core.macro[macroName], map[string]struct{}{}); je != nil {
 			return je
 		}
 	}
